@@ -61,6 +61,11 @@ MonInitVal ==
     cfgVer |-> [d \in Devices |-> 1],
     suspStopDue |-> {},          \* moved devices that must be stopped by the suspension that just started
     recIntr |-> FALSE,
+    susInst |-> {},              \* C31: installed suspenders ("s1" watches signal "sig1", "s2" watches "sig2": SuspendBoolHigh)
+    sigHigh |-> {},              \* signals whose last value is high
+    susUsed |-> FALSE,           \* suspenders are in play in this trace
+    trips |-> 0,                 \* trips of installed suspenders not yet turned into a suspension
+    susEff |-> {},               \* installed suspenders whose condition tripped while the engine could be suspended / was idle
     pendingSpan |-> 0,           \* C42: span started by the open_run in progress
     tracing |-> FALSE,           \* C42: span events are being recorded
     expOutcome |-> "ok",         \* C03: how the uninterrupted execution of the same plan ends
@@ -226,11 +231,14 @@ UpdMsg(m0, e) ==
             THEN [m4a EXCEPT !.bundle = [k \in RunKeys |-> [m4a.bundle[k] EXCEPT !.open = FALSE]], !.rew = @ + 1, !.expect = m4a.since \o m4a.expect, !.replaying = (m4a.since \o m4a.expect # <<>>), !.since = <<>>]
             ELSE m4a
       \* a suspension starts: every moved device must be stopped (C11), one interruption record per open run (C40)
+      m4s == IF cmd = "_start_suspender" /\ m4.susUsed
+             THEN ViolIf([m4 EXCEPT !.trips = IF @ > 0 THEN @ - 1 ELSE 0], m4.trips = 0, "C31:suspended-without-tripped-suspender")
+             ELSE m4
       m5 == IF cmd = "_start_suspender"
-            THEN [m4 EXCEPT !.suspStopDue = {d \in Devices : m4.dev[d].dirty},
+            THEN [m4s EXCEPT !.suspStopDue = {d \in Devices : m4.dev[d].dirty},
                             !.runs = [o \in 1..MaxRuns |-> IF m4.runs[o].started /\ m4.runs[o].stopped = 0 /\ m4.recIntr
                                                             THEN [m4.runs[o] EXCEPT !.intrWant = @ + 1] ELSE m4.runs[o]]]
-            ELSE m4
+            ELSE m4s
   IN [m5 EXCEPT !.maxMid = IF mid > @ THEN mid ELSE @, !.lastCmd = cmd]
 
 UpdGen(mIn, e) ==
@@ -257,7 +265,10 @@ UpdGen(mIn, e) ==
                /\ (m6.planMsg.cmd = "checkpoint" \/ (m6.planMsg.run \in RunKeys /\ m6.bundle[m6.planMsg.run].open))
             THEN ViolIf(m6, inp # "throw", "C15:" \o m6.planMsg.cmd \o "-inside-bundle-accepted") ELSE m6
       \* C11: the plan itself must not run while a suspension holds it
-      m8 == ViolIf(m7, m7.suspWait /\ inp = "send", "C11:plan-resumed-during-suspension")
+      m8a == ViolIf(m7, m7.suspWait /\ inp = "send", "C11:plan-resumed-during-suspension")
+      \* C31 / C11: the plan does not run while an installed suspender's condition is tripped
+      m8 == ViolIf(m8a, inp = "send" /\ m8a.susEff # {} /\ m8a.term = {} /\ ~m8a.failedPause,
+                   IF m8a.planMsg.cmd = "" THEN "C31:plan-started-while-suspender-tripped" ELSE "C11:plan-ran-while-suspender-tripped")
       m9 == IF react = "yield" THEN [m8 EXCEPT !.genYielded = TRUE, !.planMsg = [cmd |-> "?", obj |-> "", run |-> ""]]
             ELSE IF react = "return" THEN [m8 EXCEPT !.planDone = TRUE]
             ELSE [m8 EXCEPT !.planDone = TRUE, !.planRaised = react, !.faulty = (@ \/ react = "raise:PlanErr")]
@@ -368,7 +379,25 @@ UpdRet(m, e, s2) ==
 
 \* where a request landed, in terms of observable events only: "tail" = after the plan ended, "paused", else "run"
 Where(m) == IF m.planDone THEN "tail" ELSE IF m.st = "paused" THEN "paused" ELSE "run"
+SigOf(sus) == IF sus = "s1" THEN "sig1" ELSE IF sus = "s2" THEN "sig2" ELSE "sig3"
+CanTrip(m) == m.st \in {"idle", "running", "suspending"}
+UpdSus(m, e) ==
+  LET op == e[2] name == e[3] v == e[6] IN
+  CASE op = "sus_install" ->
+         [m EXCEPT !.susInst = @ \cup {name}, !.susUsed = TRUE,
+                   !.susEff = IF SigOf(name) \in m.sigHigh /\ CanTrip(m) THEN @ \cup {name} ELSE @,
+                   !.trips = IF SigOf(name) \in m.sigHigh /\ m.st \in {"running", "suspending"} THEN @ + 1 ELSE @]
+    [] op = "sus_remove" -> [m EXCEPT !.susInst = @ \ {name}, !.susEff = @ \ {name}]
+    [] op = "sig_put" ->
+         IF v # 0 THEN [m EXCEPT !.sigHigh = @ \cup {name},
+                                 !.susEff = IF CanTrip(m) THEN @ \cup {x \in m.susInst : SigOf(x) = name} ELSE @,
+                                 !.trips = IF m.st \in {"running", "suspending"} /\ name \notin m.sigHigh
+                                           THEN @ + Cardinality({x \in m.susInst : SigOf(x) = name}) ELSE @]
+         ELSE [m EXCEPT !.sigHigh = @ \ {name}, !.susEff = {x \in @ : SigOf(x) # name}]
+    [] OTHER -> m
+
 UpdReq(m, e, s) ==
+  IF e[2] \in {"sus_install", "sus_remove", "sig_put"} THEN UpdSus([m EXCEPT !.reqs = Append(@, [kind |-> e[2], pc |-> Where(m), st |-> m.st, res |-> m.ckpt, out |-> "", after |-> m.lastCmd])], e) ELSE
   LET kind == e[2]
       rec == [kind |-> kind, pc |-> Where(m), st |-> m.st, res |-> m.ckpt, out |-> "", after |-> m.lastCmd]
   IN [m EXCEPT !.reqs = Append(@, rec)]
@@ -378,9 +407,10 @@ UpdReqRet(m, e, s2) ==
       last == m.reqs[Len(m.reqs)]
       m1 == [m EXCEPT !.reqs[Len(m.reqs)].out = out]
       acc == out = "ok"
+      m1x == ViolIf(m1, kind = "sus_remove" /\ ~acc, "C31:remove-failed")
       m2 == IF acc /\ kind \in {"abort", "stop", "halt"} /\ last.st # "idle"
-            THEN (IF last.pc = "tail" THEN [m1 EXCEPT !.termLate = @ \cup {kind}] ELSE [m1 EXCEPT !.term = @ \cup {kind}])
-            ELSE m1
+            THEN (IF last.pc = "tail" THEN [m1x EXCEPT !.termLate = @ \cup {kind}] ELSE [m1x EXCEPT !.term = @ \cup {kind}])
+            ELSE m1x
       m3 == IF kind \in {"pause", "suspend"} /\ ~last.res /\ last.st \in {"running", "paused"} /\ acc THEN [m2 EXCEPT !.failedPause = TRUE] ELSE m2
       m4 == IF kind = "defer" /\ acc THEN [m3 EXCEPT !.deferPending = TRUE] ELSE m3
       m5 == IF kind = "suspend" /\ acc /\ last.res /\ last.st = "running" THEN [m4 EXCEPT !.susp = @ \cup {e[3]}] ELSE m4
@@ -423,6 +453,7 @@ Upd(m, e, s, s2) ==
     [] k = "dat" -> UpdDat(m, e)
     [] k = "exp" -> UpdExp(m, e)
     [] k = "span" -> UpdSpan(m, e)
+    [] k = "hang" -> ViolIf(m, m.susEff = {} /\ m.susp = {}, "C31:engine-hung-with-no-suspender-tripped")
     [] k = "gen" -> UpdGen(m, e)
     [] OTHER -> m
 
@@ -449,12 +480,14 @@ C08Tags == {"C08:interrupted-but-idle", "C08:interrupted-but-paused", "C08:inter
             "C08:normal-return-without-completion"}
 C09Tags == {"C09:message-after-deferred-checkpoint", "C09:replay-after-deferred-pause"}
 C10Tags == {"C10:paused-after-failed-pause", "C10:not-reported"}
-C11Tags == {"C11:moved-not-stopped-at-suspension", "C11:plan-resumed-during-suspension", "C11:returned-during-suspension"}
+C11Tags == {"C11:plan-ran-while-suspender-tripped", "C11:moved-not-stopped-at-suspension", "C11:plan-resumed-during-suspension", "C11:returned-during-suspension"}
 C12Tags == {"C12:device-error-not-delivered", "C12:status-failure-after-checkpoint", "C12:status-failure-lost", "C12:unhandled-exception-not-raised"}
 C14Tags == {"C14:document-in-wrong-run", "C14:duplicate-open-accepted"}
 C15Tags == {"C15:event-from-empty-bundle", "C15:event-missing", "C15:colliding-read-accepted", "C15:checkpoint-inside-bundle-accepted",
             "C15:configure-inside-bundle-accepted", "C15:event-keys-differ-from-bundle", "C15:event-keys-differ-from-descriptor"}
 C16Tags == {"C16:stale-configuration", "C16:event-references-old-descriptor"}
+C31Tags == {"C31:remove-failed", "C31:plan-started-while-suspender-tripped", "C31:suspended-without-tripped-suspender",
+            "C31:engine-hung-with-no-suspender-tripped"}
 C42Tags == {"C42:run-without-span", "C42:span-not-ended", "C42:span-ended-twice", "C42:span-status-differs"}
 C40Tags == {"C40:count", "C40:stream-when-disabled", "C05:duplicate-seq:interruptions", "C05:num_events:interruptions", "C05:gap:interruptions"}
 C41Tags == {"C41:update-while-paused", "C41:update-while-suspended", "C05:duplicate-seq:monitor", "C05:num_events:monitor"}
